@@ -287,14 +287,16 @@ fn put_float(out: &mut Vec<u8>, f: f64, w: u8) {
     } else {
         8
     };
-    match w.max(minw) {
-        2 => {
+    // a NaN payload may be exact in 16 bits and not survive the f64->f32->f64 conversion, so a
+    // width is used only when its own exactness test passed
+    match (w.max(minw), h, s) {
+        (2, Some(h), _) => {
             out.push(0xf9);
-            out.extend_from_slice(&h.unwrap().to_be_bytes())
+            out.extend_from_slice(&h.to_be_bytes())
         }
-        4 => {
+        (2, None, Some(s)) | (4, _, Some(s)) => {
             out.push(0xfa);
-            out.extend_from_slice(&s.unwrap().to_bits().to_be_bytes())
+            out.extend_from_slice(&s.to_bits().to_be_bytes())
         }
         _ => {
             out.push(0xfb);
